@@ -66,14 +66,18 @@ class World:
         self.tm = TaskManager()
 
     # ---- the loop
-    def run(self, duration=None, until=None, max_loops=100000):
+    def run(self, duration=None, until=None, max_loops=5000):
         """run the real core.run() until virtual time `until` (or now + duration); with
-        neither, until nothing is scheduled and nothing is deferred.  Tasks due at the
-        deadline itself are processed.  Returns the clock."""
+        neither, until nothing is scheduled and nothing is deferred - or an hour of virtual
+        time has passed or max_loops iterations were made: a stack that never falls quiet
+        (it retries for ever, say) must not hang the check; the loop then simply ends and
+        the harness finds the outcome missing, the transaction or the timer left.  Tasks
+        due at the deadline itself are processed.  Returns the clock."""
         if duration is not None:
             until = self.clock + duration
         w = self
         state = {"n": 0}
+        horizon = None if until is not None else self.clock + 3600.0
 
         def loop(timeout=30.0, use_poll=False, map=None, count=None):
             state["n"] += 1
@@ -101,6 +105,9 @@ class World:
             if until is not None and t > until:
                 w.clock = until
                 core.running = False
+                return
+            if horizon is not None and t > horizon:
+                core.running = False        # not quiet after an hour: leave what is pending to the oracles
                 return
             w.clock = t
 
